@@ -105,6 +105,11 @@ def generate(seed, tier):
         L = rw.choice([1, 1, 2, 3, 4, 5, 8, 16, 31, 32, 64, 96, rw.randrange(1, 97)])
         K = rw.choice([1, 2, 2, 3, 3, 4, 5, 6, 8, 12])
         N = L + rw.choice([0, 0, 1, 5, rw.randrange(0, 200)])
+    gpu_wide = (not big) and rw.random() < 0.02
+    if gpu_wide:        # a grid wider than one default block: K > 128 / > 256 with the shipped THREADS_PER_BLOCK
+        L = rw.randrange(1, 6)
+        K = rw.choice([129, 200, 257, 300, 513])
+        N = L + rw.randrange(K // 4, K)
     starts = _gen_starts(rw, N, L, K) if not huge_k else [rw.randrange(0, N - L + 1) for _ in range(K)]
     data = SC.gen_data_spec(rw, N, 2 if mode == "csd" else 1)
     via = rw.choice(["kernel", "analyzer"]) if not huge_k else "kernel"
@@ -115,6 +120,12 @@ def generate(seed, tier):
         "omega": _gen_omega(rw, L), "data": data, "via": via, "fs": rw.choice([1.0, 2.0, 100.0]),
         "worlds": [W.gen_world(rf, k, K, heavy=True) for k in kinds],
     }
+    if gpu_wide:
+        sc["worlds"] = [ws for ws in sc["worlds"] if ws["world"] in ("sim-cuda", "numpy")]
+        for ws in sc["worlds"]:
+            if ws["world"] == "sim-cuda":
+                ws["tpb"] = None        # the shipped block size
+                ws["policy"] = "serial_perm"
     if huge_k:
         for ws in sc["worlds"]:
             if ws["world"] == "numpy":
@@ -190,7 +201,7 @@ def _execute_stage(sc, out, x, y, stage):
     omega = sc["omega"]
     ref, tol2, tol4, Ssum = RM.ref_stats(x, y, starts, L, w, omega, sc["order"])
     names = ["MXX", "MYY", "mu_r", "mu_i", "M2"]
-    tols = [tol2, tol2, tol2, tol2, tol4]
+    tols = list(RM.ref_stats.last_tols)      # per-statistic rounding budgets (MXX, MYY, mu_r, mu_i, M2)
     got = {}
     sim_nontrivial = False
     for ws in sc["worlds"]:
@@ -220,12 +231,17 @@ def _execute_stage(sc, out, x, y, stage):
             tpb = ws.get("tpb") or 256
             if K % tpb:
                 out.count("gpu_partial_block")
+            if ws.get("tpb") is None and K > 128:
+                out.count("gpu_wide_grid_default_block")
         if world == "real-numba":
             out.count("real_threads_%d" % ws["threads"])
         if ctx is not None and ctx.stats.preempt_in_body and K >= 2:
             sim_nontrivial = True
         out.observe(world, list(res))
         for nm, g, r, tol in zip(names, res, ref, tols):
+            ratio = abs(g - r) / tol if g == g else float("inf")
+            if ratio > out.extra.get("max_budget_ratio", 0.0) and ratio != float("inf"):
+                out.extra["max_budget_ratio"] = float(ratio)
             if not (abs(g - r) <= tol):     # also catches NaN (poison reached the reduction)
                 kind = "nan" if g != g else "value"
                 if g != g:
